@@ -11,6 +11,7 @@
 #include <link.h>
 #include <sys/mman.h>
 #include <atomic>
+#include <cerrno>
 #include <memory>
 #include <algorithm>
 
@@ -42,8 +43,8 @@ static bool protect_library_data(bool on) {
 
 static inline uint64_t now_ns() { struct timespec ts; clock_gettime(CLOCK_MONOTONIC, &ts); return (uint64_t)ts.tv_sec * 1000000000ull + (uint64_t)ts.tv_nsec; }
 
-enum Op { O_ADDBASE, O_REMOVEBASE, O_EQUALS, O_TOSTRING, O_MASKREQ, O_PARSE_NORM, O_COMPOSE, O_DISSECT, O_ESCAPE, O_FILE, O_IP4, O_PARSE_OWNER, O_PARSE_TEXT, O_NOPS };
-static const char* const OPN[] = {"addBase", "removeBase", "equals", "toString", "maskRequired", "parse+normalize", "composeQuery", "dissectQuery", "escape", "filename", "ip4", "parse+makeOwner", "parse(errorPos=NULL)"};
+enum Op { O_ADDBASE, O_REMOVEBASE, O_EQUALS, O_TOSTRING, O_MASKREQ, O_PARSE_NORM, O_COMPOSE, O_DISSECT, O_ESCAPE, O_FILE, O_IP4, O_PARSE_OWNER, O_PARSE_TEXT, O_TESTMM, O_NOPS };
+static const char* const OPN[] = {"addBase", "removeBase", "equals", "toString", "maskRequired", "parse+normalize", "composeQuery", "dissectQuery", "escape", "filename", "ip4", "parse+makeOwner", "parse(errorPos=NULL)", "testMemoryManager(shared)"};
 
 struct Rec { uint64_t t0, t1; uint16_t op; uint16_t i, j; uint32_t arg; uint64_t result; bool faulted; };
 
@@ -83,8 +84,22 @@ template <class X> typename X::Uri* arena_clone(Arena& A, const typename X::Uri&
     return ok ? d : nullptr;
 }
 
+// A complete memory manager shared by several threads: thread-safe callbacks (the C library's allocator plus atomic counters); the
+// UriMemoryManager structure itself lives in the read-only arena, so a call that writes to the manager it was given -- even to put
+// the same pointers back later -- faults.
+struct SharedMgr {
+    UriMemoryManager mm; std::atomic<uint64_t> allocs{0}, frees{0};
+    static void* s_malloc(UriMemoryManager* m, size_t n) { ((SharedMgr*)m->userData)->allocs++; return raw_malloc(n ? n : 1); }
+    static void* s_calloc(UriMemoryManager* m, size_t a, size_t b) { if (a && b > (size_t)-1 / a) { errno = ENOMEM; return nullptr; } ((SharedMgr*)m->userData)->allocs++; void* p = raw_malloc(a * b ? a * b : 1); if (p) memset(p, 0, a * b); return p; }
+    static void* s_realloc(UriMemoryManager* m, void* p, size_t n) { SharedMgr* s = (SharedMgr*)m->userData; if (!p) { s->allocs++; return raw_malloc(n ? n : 1); } if (!n) { s->frees++; raw_free(p); return nullptr; } return realloc(p, n); }
+    static void* s_reallocarray(UriMemoryManager* m, void* p, size_t a, size_t b) { if (a && b > (size_t)-1 / a) { errno = ENOMEM; return nullptr; } return s_realloc(m, p, a * b); }
+    static void s_free(UriMemoryManager* m, void* p) { if (p) { ((SharedMgr*)m->userData)->frees++; raw_free(p); } }
+    SharedMgr() { mm.malloc = s_malloc; mm.calloc = s_calloc; mm.realloc = s_realloc; mm.reallocarray = s_reallocarray; mm.free = s_free; mm.userData = this; }
+};
+
 template <class X> struct Shared {
     typedef typename X::Char Char; typedef typename X::QList QList;
+    SharedMgr smgr; UriMemoryManager* roMgr = nullptr;
     std::vector<std::unique_ptr<UriBox<X>>> uris; std::vector<Str> snaps;
     std::unique_ptr<Arena> arena; std::vector<typename X::Uri*> roUris; std::vector<const Char*> roText; std::vector<size_t> roTextLen;
     std::vector<const Char*> roStrings; std::vector<size_t> roStringLen; std::vector<QList*> roLists;
@@ -97,6 +112,7 @@ template <class X> struct Shared {
         for (auto& L : lists) { QList* nodes = (QList*)A.alloc(sizeof(QList) * L.size()); if (!nodes) { ok = false; roLists.push_back(nullptr); continue; }
             for (size_t k = 0; k < L.size(); k++) { nodes[k].key = arena_text<X>(A, L[k].key, L[k].key + xstrlen<X>(L[k].key), true); nodes[k].value = L[k].value ? arena_text<X>(A, L[k].value, L[k].value + xstrlen<X>(L[k].value), true) : nullptr; nodes[k].next = k + 1 < L.size() ? &nodes[k + 1] : nullptr; if (!nodes[k].key) ok = false; }
             roLists.push_back(nodes); }
+        roMgr = (UriMemoryManager*)A.alloc(sizeof(UriMemoryManager)); if (roMgr) memcpy(roMgr, &smgr.mm, sizeof(UriMemoryManager)); else ok = false;
         if (!ok) return false;
         for (size_t i = 0; i < roUris.size(); i++) snaps[i] = deep_snapshot<X>(*roUris[i]);
         g_arena = arena.get(); crash_explain = explain_fault;
@@ -157,6 +173,7 @@ template <class X> uint64_t do_call(Shared<X>& sh, int op, unsigned i, unsigned 
     case O_PARSE_TEXT: {   // arbitrary shared text (mostly not a URI: the failing exits), optional error position absent
         SV s = S(i); Uri u; int rc = (arg & 1) ? X::ParseSingleUriEx(&u, s.data(), s.data() + s.size(), nullptr) : mm ? X::ParseSingleUriExMm(&u, s.data(), s.data() + s.size(), nullptr, mm) : X::ParseSingleUri(&u, s.c_str(), nullptr);
         out = fmt("%d", rc); if (rc == 0) { out += text_of(u); } if (mm && !(arg & 1)) X::FreeUriMembersMm(&u, mm); else X::FreeUriMembers(&u); break; }
+    case O_TESTMM: { int rc = uriTestMemoryManager(sh.roMgr); out = fmt("%d", rc); break; }      // the library's self test on the manager other threads are using right now
     default: { SV s = S(i); unsigned char oct[4] = {0, 0, 0, 0}; int rc = X::ParseIpFourAddress(oct, s.data(), s.data() + s.size()); out = fmt("%d:%u.%u.%u.%u", rc, oct[0], oct[1], oct[2], oct[3]); break; }
     }
     return hash_str(out);
@@ -166,7 +183,8 @@ template <class X> struct ThreadArg { Shared<X>* sh; int tid; uint64_t seed; int
 template <class X> void* thread_main(void* p) {
     ThreadArg<X>* a = (ThreadArg<X>*)p; Rng r(a->seed);
     Ledger led; led.yield_in_cb = true; led.yield_state = a->seed | 1;
-    UriMemoryManager* mm = a->customMgr ? led.mgr() : nullptr;
+    bool sharedMgr = (a->tid % 4) == 3;         // every fourth thread works under the manager shared with its like
+    UriMemoryManager* mm = sharedMgr ? a->sh->roMgr : a->customMgr ? led.mgr() : nullptr;
     a->recs.reserve((size_t)a->iters);
     while (a->go->load() == 0) sched_yield();
     if (a->tid & 1) { struct timespec ts = {0, (long)(r.below(200000))}; nanosleep(&ts, nullptr); }     // staggered start
@@ -178,9 +196,9 @@ template <class X> void* thread_main(void* p) {
         // concurrently with other threads' calls on the same shared inputs; such a call's result is not compared, but it must not
         // store into a shared input (read-only arena) nor hand a piece of one to the manager's free function
         rec.faulted = false;
-        if (mm && r.chance(1, 6)) led.arm((long)r.range(1, 12), r.coin());
+        if (mm && !sharedMgr && r.chance(1, 6)) led.arm((long)r.range(1, 12), r.coin());
         rec.t0 = now_ns(); rec.result = do_call<X>(*a->sh, rec.op, rec.i, rec.j, rec.arg, mm); rec.t1 = now_ns();
-        if (mm) { if (led.failed) { rec.faulted = true; a->faultedCalls++; } led.fail_at = 0; led.fail_from = false; led.failed = 0;
+        if (mm && !sharedMgr) { if (led.failed) { rec.faulted = true; a->faultedCalls++; } led.fail_at = 0; led.fail_from = false; led.failed = 0;
             if (led.bad_free && g_arena && g_arena->contains(led.last_bad_ptr)) { a->sharedReleased++; if (a->sharedReleasedNote.empty()) a->sharedReleasedNote = fmt("op=%s i=%u j=%u arg=%u: %s", OPN[rec.op], rec.i, rec.j, rec.arg, led.bad_free_note.c_str()); led.bad_free = 0; led.bad_free_note.clear(); }
             if (rec.faulted && led.outstanding()) led.release_all(); }       // leaks on failure paths are C14's business, not this monitor's
         a->recs.push_back(rec);
@@ -229,6 +247,8 @@ template <class X> void round(Ctx& c, uint64_t idx) {
             if (it->second != rec.result) { if (mism++ < 3) c.violation("C20", fmt("threads/%s/result-differs-from-single-thread/%s", X::tag(), OPN[rec.op]), fmt("op=%s i=%u j=%u arg=%u T=%d", OPN[rec.op], rec.i, rec.j, rec.arg, T)); }
         }
     }
+    if (sh.smgr.allocs.load() != sh.smgr.frees.load()) c.violation("C13", fmt("threads/%s/shared-manager-unbalanced", X::tag()), fmt("allocations %llu, releases %llu", (unsigned long long)sh.smgr.allocs.load(), (unsigned long long)sh.smgr.frees.load()));
+    if (memcmp(sh.roMgr, &sh.smgr.mm, sizeof(UriMemoryManager)) != 0) c.violation("C20", fmt("threads/%s/shared-manager-structure-modified", X::tag()), "");
     // (2) shared inputs unchanged
     for (size_t i = 0; i < sh.roUris.size(); i++) if (deep_snapshot<X>(*sh.roUris[i]) != sh.snaps[i]) c.violation("C20", fmt("threads/%s/shared-input-modified", X::tag()), fmt("shared uri %zu (\"%s\")", i, esc(sh.uris[i]->srcText).c_str()));
     // (3) which interleavings were observed: overlapping call pairs on the same shared object
